@@ -33,7 +33,7 @@ EXHAUSTIVE = {'quick': False, 'thorough': False}   # the sweep is exhaustive, th
 
 
 def budget(tier):
-    return 4300 if tier == 'quick' else 85000
+    return 12000 if tier == 'quick' else 110000
 
 
 @st.composite
